@@ -1,5 +1,5 @@
 """Helpers shared by the process-level checks."""
-import os, signal
+import os, re, signal
 from . import core
 
 SCHED_MODES = ['jitter', 'straggler', 'slowthread']
@@ -39,7 +39,8 @@ def bad_ending(ctx, r, what, files=None, info=None, key_prefix=''):
             ctx.inconcl('watchdog without deadlock evidence: ' + what)
         return True
     if r.sig == signal.SIGABRT:
-        ctx.violation(key_prefix + 'abort', 'SIGABRT (assertion / abort): %s: %s' % (what, r.err[-300:].decode(errors='replace')),
+        m = re.search(rb': (\w+): Assertion', r.err)
+        ctx.violation(key_prefix + 'abort' + (':' + m.group(1).decode() if m else ''), 'SIGABRT (assertion / abort): %s: %s' % (what, r.err[-300:].decode(errors='replace')),
                       files=dict(files or {}, **{'stderr.txt': r.err}), info=info)
         return True
     if r.sig in (signal.SIGSEGV, signal.SIGBUS, signal.SIGILL, signal.SIGFPE):
